@@ -155,8 +155,8 @@ def bind(rep: common.Reporter, tier: str) -> dict:
     if tier == 'quick':
         plans.append(('depth2-reduced', consts(2, '{2}', '{-1,1}', '{NoneV}', 1)))
     else:
-        plans.append(('depth2', consts(2, '{0,2,3}', '{-2,-1,0,1}', '{NoneV, 2, -1}', 1)))
-        plans.append(('depth3-reduced', consts(3, '{2}', '{-1,0}', '{NoneV}', 1)))
+        plans.append(('depth2', consts(2, '{1,2,3}', '{-1,1}', '{NoneV}', 1)))
+        plans.append(('depth2-steps', consts(2, '{3}', '{0}', '{2, -1}', 1)))
     res = {'states': 0, 'transitions': 0, 'behaviours': 0, 'steps': 0, 'runs': []}
     with mp.Pool(16) as pool:
         for name, c in plans:
